@@ -54,6 +54,7 @@ type Call struct {
 	Back   []uint64 `json:"back,omitempty"`
 	Calls  int      `json:"calls"` // times the host function ran
 	Err    string   `json:"err,omitempty"`
+	Defined bool    `json:"defined,omitempty"` // reflect style: parameter/result types are DEFINED types (type T float32 ...)
 }
 
 type Abi struct {
@@ -77,6 +78,53 @@ var goType = map[string]reflect.Type{
 	"u32": reflect.TypeOf(uint32(0)), "i32": reflect.TypeOf(int32(0)), "u64": reflect.TypeOf(uint64(0)), "i64": reflect.TypeOf(int64(0)),
 	"f32": reflect.TypeOf(float32(0)), "f64": reflect.TypeOf(float64(0)), "ptr": reflect.TypeOf(uintptr(0)),
 }
+// defined types with the same underlying types (the builder accepts them by kind): used for every other signature
+type (
+	dU32 uint32
+	dI32 int32
+	dU64 uint64
+	dI64 int64
+	dF32 float32
+	dF64 float64
+	dPtr uintptr
+)
+
+var goTypeDefined = map[string]reflect.Type{
+	"u32": reflect.TypeOf(dU32(0)), "i32": reflect.TypeOf(dI32(0)), "u64": reflect.TypeOf(dU64(0)), "i64": reflect.TypeOf(dI64(0)),
+	"f32": reflect.TypeOf(dF32(0)), "f64": reflect.TypeOf(dF64(0)), "ptr": reflect.TypeOf(dPtr(0)),
+}
+
+// bitsOf / valueOfBits move the raw bits of a value of kind k in and out of a reflect.Value of type t through memory
+// (no numeric conversion anywhere, whatever the type's name)
+func bitsOf(v reflect.Value, k string) gv {
+	p := reflect.New(v.Type())
+	p.Elem().Set(v)
+	switch k {
+	case "u32", "f32":
+		return gv{U: uint64(*(*uint32)(p.UnsafePointer()))}
+	case "i32":
+		return gv{S: int64(*(*int32)(p.UnsafePointer()))}
+	case "i64":
+		return gv{S: *(*int64)(p.UnsafePointer())}
+	default:
+		return gv{U: *(*uint64)(p.UnsafePointer())}
+	}
+}
+func valueOfBits(v gv, k string, t reflect.Type) reflect.Value {
+	p := reflect.New(t)
+	switch k {
+	case "u32", "f32":
+		*(*uint32)(p.UnsafePointer()) = uint32(v.U)
+	case "i32":
+		*(*int32)(p.UnsafePointer()) = int32(v.S)
+	case "i64":
+		*(*int64)(p.UnsafePointer()) = v.S
+	default:
+		*(*uint64)(p.UnsafePointer()) = v.U
+	}
+	return p.Elem()
+}
+
 var (
 	ctxType = reflect.TypeOf((*context.Context)(nil)).Elem()
 	modType = reflect.TypeOf((*api.Module)(nil)).Elem()
@@ -221,7 +269,11 @@ func (e *env) stackFn(ctx context.Context, mod api.Module, stack []uint64) {
 }
 
 // reflectFn builds a Go function with typed parameters and results for WithFunc.
-func (e *env) reflectFn(ctxKind string, pk, rk []string) any {
+func (e *env) reflectFn(ctxKind string, pk, rk []string, defined bool) any {
+	goType := goType
+	if defined {
+		goType = goTypeDefined
+	}
 	var in, out []reflect.Type
 	off := 0
 	if ctxKind != "none" {
@@ -251,12 +303,20 @@ func (e *env) reflectFn(ctxKind string, pk, rk []string) any {
 		}
 		seen := make([]gv, len(pk))
 		for i, k := range pk {
-			seen[i] = fromReflect(a[off+i], k)
+			if defined {
+				seen[i] = bitsOf(a[off+i], k)
+			} else {
+				seen[i] = fromReflect(a[off+i], k)
+			}
 		}
 		e.body(ctx, mod, seen)
 		res := make([]reflect.Value, len(rk))
 		for j, k := range rk {
-			res[j] = toReflect(r.hret[j], k)
+			if defined {
+				res[j] = valueOfBits(r.hret[j], k, goType[k])
+			} else {
+				res[j] = toReflect(r.hret[j], k)
+			}
 		}
 		return res
 	}).Interface()
@@ -455,7 +515,7 @@ func runSig(ctx context.Context, sid int, s sig, engine string, plans []plan) []
 		}
 		switch st {
 		case "reflect":
-			b = b.NewFunctionBuilder().WithFunc(e.reflectFn(p.ctx, p.pk, p.rk)).Export("h_reflect")
+			b = b.NewFunctionBuilder().WithFunc(e.reflectFn(p.ctx, p.pk, p.rk, sid%2 == 1)).Export("h_reflect")
 		case "gofunc":
 			b = b.NewFunctionBuilder().WithGoFunction(api.GoFunc(func(ctx context.Context, stack []uint64) { e.stackFn(ctx, nil, stack) }), pv, rv).Export("h_gofunc")
 		case "gomod":
@@ -474,7 +534,7 @@ func runSig(ctx context.Context, sid int, s sig, engine string, plans []plan) []
 	for _, p := range plans {
 		rc := &rec{pk: p.pk, rk: p.rk, hret: p.hret, reent: p.reent, form: p.form}
 		e.cur = rc
-		cs := Call{T: "call", Sid: sid, Engine: engine, Style: p.style, Ctx: p.ctx, Form: p.form, Reent: p.reent, PT: s.pt, RT: s.rt, PK: p.pk, RK: p.rk, Args: p.args}
+		cs := Call{T: "call", Sid: sid, Engine: engine, Style: p.style, Ctx: p.ctx, Form: p.form, Reent: p.reent, PT: s.pt, RT: s.rt, PK: p.pk, RK: p.rk, Args: p.args, Defined: p.style == "reflect" && sid%2 == 1}
 		fn := g.ExportedFunction("echo_" + p.style)
 		func() {
 			defer func() {
